@@ -73,7 +73,7 @@ def instrument(ctx, files):
     return os.path.join(ov, "overlay.json")
 
 
-FIELDS = {"t", "seq", "e", "k", "n", "mode", "due", "close", "retry", "par", "p", "ent", "m", "now", "res", "next",
+FIELDS = {"t", "seq", "e", "k", "n", "mode", "due", "close", "retry", "par", "hdr", "p", "ent", "m", "now", "res", "next",
           "ndue", "pending", "broken", "hung", "g"}
 
 
@@ -141,9 +141,38 @@ def run_shards_resilient(ctx, binary, items, name="replay", rounds=6):
     return events
 
 
-def scen(mode, due, close, retry, par=1, maxtime=1):
+def scen(mode, due, close, retry, par=1, maxtime=1, hdr=()):
+    # queue mode with shutdown: the process is started again on the same spool directory afterwards
     return {"mode": mode, "due": {p: d * SCALE for p, d in due.items()}, "close": close, "retry": list(retry),
-            "par": par, "maxTime": maxtime * SCALE, "retryDelay": SCALE}
+            "par": par, "maxTime": maxtime * SCALE, "retryDelay": SCALE, "hdr": list(hdr),
+            "restart": mode == "queue" and close}
+
+
+def directed(thorough):
+    """Directed schedules on the real Queue (choices that are not runnable are skipped):
+    commit-after-close   Start/AddRcpt/Body before shutdown, Commit after Close returned;
+    restart-before-retry attempt at t>enqueue fails temporarily, shutdown and restart before the retry is due;
+    header-fault         the header cannot be opened when the retry is dispatched (transient error), shutdown,
+                         restart with the fault gone."""
+    out = []
+    run_all = ["tick", "w:p1", "w:p2", "w:p1.2"]
+    for due in ({"p1": 0}, {"p1": 0, "p2": 0}):
+        for pre in ([], ["clock"]):
+            sc = scen("queue", due, True, ["p2"] if "p2" in due else [], maxtime=2)
+            sched = ["p1"] + pre + (["p2"] * 6 if "p2" in due else []) + (["closer"] + run_all) * 10 + ["p1"] * 6
+            out.append({"cfg": sc, "pol": "list", "sched": sched, "src": "commit-after-close"})
+    for nclk in (1, 2):
+        for extra in ([], ["p2"] * 6):
+            due = {"p1": 0, "p2": 0} if extra else {"p1": 0}
+            sc = scen("queue", due, True, ["p1"], maxtime=3)
+            sched = ["p1"] + ["clock"] * nclk + (["p1"] + run_all) * 10 + extra + (["closer"] + run_all) * 10
+            out.append({"cfg": sc, "pol": "list", "sched": sched, "src": "restart-before-retry"})
+    for extra in ([], ["p2"] * 6):
+        due = {"p1": 0, "p2": 0} if extra else {"p1": 0}
+        sc = scen("queue", due, True, ["p1"], maxtime=3, hdr=["p1"])
+        sched = (["p1"] + run_all) * 10 + extra + ["clock"] * 3 + run_all * 8 + (["closer"] + run_all) * 10
+        out.append({"cfg": sc, "pol": "list", "sched": sched, "src": "header-fault"})
+    return out
 
 
 def scale(b):
@@ -257,9 +286,10 @@ def run(ctx, replay):
             if all(v == 0 for v in b["cfg"]["due"].values()) and (not thorough or i % 5 == 0):
                 modes.append("queue")       # thorough: every picked schedule on the wheel, every 5th also on the queue
             for mode in modes:
-                c = dict(b["cfg"], mode=mode)
+                c = dict(b["cfg"], mode=mode, hdr=[], restart=(mode == "queue" and b["cfg"]["close"]))
                 behs.append({"cfg": c, "pol": "list", "sched": b["sched"], "src": "tlc"})
         # delay positions applied directly to the code's non-preemptive schedule, and random schedules
+        behs += directed(thorough)
         for sc in scenarios(thorough):
             horizon = 40 if len(sc["due"]) <= 2 else 60
             behs.append({"cfg": sc, "pol": "db", "delays": [], "src": "db"})
